@@ -278,6 +278,9 @@ def _worker(args):
     for scn in scns:
         try:
             calls = W.run_world(scn)
+        except W.S.SolverBudget:
+            cnt("abandoned_solver_budget")
+            continue
         except Exception as e:
             import traceback
             res["orc"].append({"signature": "construction-exception:" + type(e).__name__, "case": scn,
